@@ -410,6 +410,79 @@ def run_case(case):
                     if a_ > floor and b_ > a_ / 3.0 and b_ > floor:
                         bad.append(('consistency', 'implicit and explicit steps do not agree to O(dt^2): differences %r for dt, dt/2, dt/4' % (diffs,)))
                         break
+        elif kind == 'refresh':
+            # one variable stepped several times at ONE dt; between steps only a PART of the problem is refreshed: the storage
+            # coefficient (a CellVariable kept by the caller and given new values in one of the supported ways), or the flow of a
+            # central advection term on a uniform grid (reversed / scaled: only off-diagonal entries of the system change).
+            # Every step must satisfy the backward-Euler equations of the problem as it is at that step.
+            sub = case.get('sub', 'alpha')
+            from ..oracles import AXKIND
+            fac_u, meta = gen.gen_grid(rng, cls, nmin=2, nmax=nmax, family='uniform')
+            faces = fac_u
+            g = Geom(cls, faces)
+            m = gen.build_mesh(pf, cls, faces)
+            rows = interior_index(g.dims)
+            nfull = int(np.prod(g.full_shape()))
+            for _ in range(60):
+                spec = gen.gen_bc_spec(rng, g, lams=(1.0, -1.0, 2.5, 0.4))
+                if gen.bc_nonsingular(g, spec):
+                    break
+            Darr, _ = gen.face_arrays(rng, g, 'random', positive=True)
+            Darr = [np.clip(a, 1e-2, 1e2) for a in Darr]
+            Mdiff = -pf.diffusionTerm(gen.facevar(pf, m, Darr))
+            hmax = max(float(np.max(w)) for w in g.w)
+            u0 = [np.full(g.face_shape(k), float(rng.choice([-1.0, 1.0])) * 0.3 * min(float(np.min(a)) for a in Darr) / hmax) for k in range(g.nd)]
+            tset = 'D+central'
+            bvec = np.asarray(pf.constantSourceTerm(pf.CellVariable(m, rng.normal(0, 1, g.dims))), dtype=float)
+            old_vals, ffam = gen.cell_field(rng, g.dims, 'random')
+            phi = pf.CellVariable(m, old_vals.copy(), gen.make_bc(pf, m, g, spec))
+            dt = float(10 ** rng.uniform(-2, 1.5))
+            arr = np.exp(rng.normal(0, 1, g.dims))
+            alpha = pf.CellVariable(m, arr.copy()) if sub == 'alpha' else float(10 ** rng.uniform(-1, 1))
+            akind = 'cellvar' if sub == 'alpha' else 'scalar'
+            factors = [1.0, -1.0, 0.5, -1.0] if sub == 'flow' else [1.0, 1.0, 1.0, 1.0]
+            default_path = bool(case['seed'][-1] % 2)
+            for step, f_ in enumerate(factors):
+                if sub == 'alpha' and step > 0:
+                    how = str(rng.choice(['setter', 'setter+apply_BCs', 'copyto+apply_BCs', 'own-solve', 'slice+apply_BCs']))
+                    new_a = np.exp(rng.normal(0, 1, g.dims))
+                    if how == 'setter':
+                        alpha.value = new_a
+                    elif how == 'setter+apply_BCs':
+                        alpha.value = new_a
+                        alpha.apply_BCs()
+                    elif how == 'slice+apply_BCs':
+                        alpha.value[...] = new_a
+                        alpha.apply_BCs()
+                    elif how == 'copyto+apply_BCs':
+                        np.copyto(alpha.value, new_a)       # untracked write, followed by the explicit refresh the documentation asks for
+                        alpha.apply_BCs()
+                    else:
+                        # the coefficient is itself a transported quantity, advanced by its own equation
+                        pf.solvePDE(alpha, [pf.transientTerm(alpha, 0.5, 1.0), -pf.diffusionTerm(pf.FaceVariable(m, 1.0))])
+                    cov['alpha_refreshed:' + how] = cov.get('alpha_refreshed:' + how, 0) + 1
+                aarr = np.array(np.asarray(alpha.value), dtype=float, copy=True) if sub == 'alpha' else np.full(g.dims, alpha)
+                Mconv = pf.convectionTerm(gen.facevar(pf, m, [f_ * a for a in u0]))
+                S = sp.csr_array(Mdiff + Mconv)
+                old = np.array(phi.value, copy=True)
+                spy = SpySolver()
+                solve_with(pf, spy, phi, [pf.transientTerm(phi, dt, alpha), Mdiff, Mconv, bvec], default_path=default_path)
+                M, b, x = spy.last
+                if not np.all(np.isfinite(x)):
+                    inconclusive = 'singular system'
+                    break
+                Mtr = sp.csr_array((aarr.ravel() / dt, (rows, rows)), shape=(nfull, nfull))
+                rtr = np.zeros(nfull)
+                rtr[rows] = aarr.ravel() * old.ravel() / dt
+                e = residual_err(Mtr + S, x, rtr + bvec, rows, solver_output=True, solved=(M, b))
+                maxerr['refresh-be-residual'] = max(maxerr.get('refresh-be-residual', 0.0), e)
+                cov['refresh_steps:%s:%s' % (sub, 'default' if default_path else 'external')] = cov.get('refresh_steps:%s:%s' % (sub, 'default' if default_path else 'external'), 0) + 1
+                if getattr(spy, 'observed_from_outside', 0):
+                    cov['default_path_observed_from_outside'] = 1
+                if not (e <= TOL):
+                    bad.append(('refresh/be-residual', 'step %d at fixed dt %.3g after refreshing %s: alpha*(new-old)/dt + S new - b != 0 on interior cells (normalised %.3g)' % (
+                        step + 1, dt, 'the storage coefficient' if sub == 'alpha' else 'the flow (factor %g)' % f_, e)))
+                    break
         else:
             raise KeyError(kind)
     kv = gen.bc_kind_vector(g, spec)
@@ -428,7 +501,7 @@ def run_case(case):
     return {'verdict': 'held', 'key': key, 'cov': cov, 'maxerr': maxerr, 'nontrivial': ffam != 'const', 'sample': sample}
 
 
-KINDS = ['be-residual', 'fixed-point', 'limits', 'explicit', 'consistency', 'loop']
+KINDS = ['be-residual', 'fixed-point', 'limits', 'explicit', 'consistency', 'loop', 'refresh']
 
 
 def plan(tier, seed):
@@ -439,7 +512,7 @@ def plan(tier, seed):
         i = 0
         for kind in KINDS:
             for rep in range(per):
-                cases.append({'cls': cls, 'kind': kind, 'seed': [seed, 12, ci, i], 'sub': ['explicit-update', 'mixed'][rep % 2], 'tunit': rep % 5 == 4})
+                cases.append({'cls': cls, 'kind': kind, 'seed': [seed, 12, ci, i], 'sub': ['explicit-update', 'mixed'][rep % 2] if kind != 'refresh' else ['alpha', 'flow'][(rep // 2) % 2], 'tunit': rep % 5 == 4})
                 i += 1
         for k_ in range(NDIM[cls]):           # each periodic-capable axis periodic for sure (declared by one flag or both, see gen)
             if cls in ('Grid1D', 'Grid2D', 'Grid3D') or k_ > 0:
@@ -459,7 +532,7 @@ def floors(agg, tier):
             if agg['cov'].get('kind:%s:%s' % (kind, cls), 0) < 4:
                 out.append('kind:%s:%s < 4' % (kind, cls))
     for k, need in (('be_steps', 50), ('fixed_point_steps', 40), ('limit_inf', 15), ('limit_zero', 15), ('explicit_steps', 50), ('consistency', 15),
-                    ('alpha:scalar', 5), ('alpha:ndarray', 5), ('alpha:cellvar', 5), ('with_periodic', 10), ('loop:explicit-update', 15), ('loop:mixed', 15), ('loop_steps', 40), ('be_reported_steps', 50), ('be_wide_dt_steps', 20), ('spatial_part_as_tuple', 30), ('be_integer_dt_steps', 10), ('time_unit:large', 5), ('time_unit:small', 5), ('loop_steps_on_explicit_result', 30)):
+                    ('alpha:scalar', 5), ('alpha:ndarray', 5), ('alpha:cellvar', 5), ('with_periodic', 10), ('loop:explicit-update', 15), ('loop:mixed', 15), ('loop_steps', 40), ('be_reported_steps', 50), ('be_wide_dt_steps', 20), ('spatial_part_as_tuple', 30), ('be_integer_dt_steps', 10), ('time_unit:large', 5), ('time_unit:small', 5), ('loop_steps_on_explicit_result', 30), ('refresh_steps:alpha:default', 20), ('refresh_steps:alpha:external', 20), ('refresh_steps:flow:default', 20), ('refresh_steps:flow:external', 20)):
         if agg['cov'].get(k, 0) < need:
             out.append('%s < %d' % (k, need))
     return out
